@@ -29,3 +29,16 @@ package bmatch
 //@   ensures[!definition] result <==> matchall(m, record)
 //@   loop 1: invariant -1 <= rangeindex && rangeindex < len(m.fieldMatches) && fields === record.Fields
 //@   loop 1: invariant forall j int :: 0 <= j && j <= rangeindex ==> vmatch(ref(m.fieldMatches[j].match), record.Fields[m.fieldMatches[j].locator])
+
+// ==== configuration: verify => construct (C16) ===================================================================================
+// every match key is a schema field and has a compiled value matcher
+//@ pure func mcfgok(m LogMatcherConfig, s base.LogSchema) bool := forall k int :: rawhas(m, k) ==> base.hasf(s, k) && rawget(m, k).match != nil
+//@ func (cmap LogMatcherConfig) VerifyConfig(schema base.LogSchema) error
+//@   property C16
+//@   modifies nothing
+//@   ensures[accepted-config-is-constructible] result == nil ==> mcfgok(cmap, schema)
+//@   loop 1: foreach k int :: base.hasf(schema, k) && rawget(cmap, k).match != nil
+//@ func (cmap LogMatcherConfig) NewMatcher(schema base.LogSchema) LogMatcher
+//@   property C16
+//@   requires[verified-before-constructed] mcfgok(cmap, schema)
+//@   modifies nothing
